@@ -2,7 +2,9 @@
    harnesses (harness/buffered/c17_test.go, harness/provider/c17_test.go):
 
      CBuf   the real buffered wrapper over a recording wrapped provider: the calls it made
-            are compared with Model/Buffered.v and their effect with one-by-one execution;
+            must be those of the (repaired) primary model of Model/Buffered.v and their
+            effect the one of one-by-one execution; CBufReal: the same over the real
+            SweepingProvider, judged on which keys were advertised / kept;
      CTrace a trace recorded from the real SweepingProvider, judged by the verified
             monitor [accepts] of Model/Sweep.v (accepts_sound in Proofs/SweepProofs.v);
      CPure  the pure pipeline pieces (schedule arithmetic, schedule trie, exploration loop)
@@ -57,9 +59,10 @@ Definition seg_batches (n : nat) (s : bseg) : list (list bop) :=
    else chunks n (sg_ops s)).
 Definition seg_expected (n : nat) (s : bseg) : list icall := flat_map batch_calls (seg_batches n s).
 Definition buf_expected (n : nat) (segs : list bseg) : list icall := flat_map (seg_expected n) segs.
-(* the calls of the repaired algorithm (Model/Buffered.v fix_batch_calls), accepted as well *)
-Definition buf_expected_fix (n : nat) (segs : list bseg) : list icall :=
-  flat_map (fun s => flat_map fix_batch_calls (seg_batches n s)) segs.
+(* what the FORMER protocols (before /repo 7d0480f, b36ad55) would have called: only used to
+   name the symptom of a failing case, never accepted *)
+Definition buf_expected_old (n : nat) (segs : list bseg) : list icall :=
+  flat_map (fun s => flat_map old_batch_calls (seg_batches n s)) segs.
 
 Definition seg_all_ops (s : bseg) : list bop := BOnce (sg_primer s) :: sg_ops s.
 Definition buf_all_ops (segs : list bseg) : list bop := flat_map seg_all_ops segs.
@@ -67,6 +70,11 @@ Definition buf_all_ops (segs : list bseg) : list bop := flat_map seg_all_ops seg
 Definition op_keys (o : bop) : list N :=
   match o with BOnce k | BStart k | BForce k | BStop k => [k] | BBad => [] end.
 
+(* 0: the wrapper made exactly the calls of the model and their effect is the one of
+   one-by-one execution.  1: same effect, other calls.  >= 2: the effect differs from
+   one-by-one execution (the property fails); 5: ... and the calls are those of the former
+   protocol dropping a batch with an undecodable item; 4: ... those of the former protocol
+   with the single, last stop group (ProvideOnce after StopProviding cancelled); 2: other. *)
 Definition buf_verdict (n : nat) (ks0 : list N) (segs : list bseg) (impl : list icall) (panicked : bool) : nat :=
   if panicked then 3%nat else
   let ops := buf_all_ops segs in
@@ -74,19 +82,16 @@ Definition buf_verdict (n : nat) (ks0 : list N) (segs : list bseg) (impl : list 
   let s0 := {| ks := ks0; pend := [] |} in
   let s_seq := i_run s0 (seq_calls ops) in
   let s_b := i_run s0 impl in
-  let agree := list_eqb icall_eqb (map norm_call (buf_expected n segs)) (map norm_call impl)
-               || list_eqb icall_eqb (map norm_call (buf_expected_fix n segs)) (map norm_call impl) in
+  let agree := list_eqb icall_eqb (map norm_call (buf_expected n segs)) (map norm_call impl) in
+  let as_old := list_eqb icall_eqb (map norm_call (buf_expected_old n segs)) (map norm_call impl) in
   (* the keystore holds the same keys as after one-by-one execution *)
   let ks_ok := forallb (fun k => Bool.eqb (memN k (ks s_seq)) (memN k (ks s_b))) univ in
   (* a key that one-by-one execution leaves waiting to be advertised is waiting, or kept
      (then the schedule advertises it), after the batched execution *)
   let adv_ok := forallb (fun k => implb (memN k (pend s_seq)) (memN k (pend s_b) || memN k (ks s_b))) univ in
   if ks_ok && adv_ok then (if agree then 0 else 1)%nat
-  else if negb agree then 2%nat
-  else if negb (valid_ops ops) then 5%nat        (* a batch with an undecodable item was dropped *)
-  else if ks_ok && negb (forallb no_once_after_stop
-                           (flat_map (seg_batches n) segs))
-       then 4%nat                                (* ProvideOnce after StopProviding in one batch: cancelled *)
+  else if as_old && negb (valid_ops ops) then 5%nat
+  else if as_old then 4%nat
   else 2%nat.
 
 (* CBufReal: the wrapped provider is the real SweepingProvider (online).  Between two
@@ -112,8 +117,9 @@ Definition bufreal_verdict (n : nat) (ks0 : list N) (segs : list bseg) (advertis
   let ks_ok := forallb (fun k => Bool.eqb (memN k (ks s_seq)) (memN k kept)) univ in
   let adv_ok := forallb (fun k => memN k advertised || memN k kept) must in
   if ks_ok && adv_ok then 0%nat
-  else if negb (valid_ops ops) then 5%nat
+  else if negb ks_ok && negb (valid_ops ops) then 5%nat   (* symptom of the former batch drop *)
   else if ks_ok && negb (forallb no_once_after_stop (flat_map (seg_batches n) segs)) then 4%nat
+                                                          (* symptom of the former single stop group *)
   else 2%nat.
 
 (* ================= CTrace ================================================================= *)
